@@ -106,6 +106,20 @@ const SPENDERS: [usize; 3] = [FP, FL, X];
 const CANDS: [usize; 4] = [T1, T2, T3, X];
 const EXECUTORS: [usize; 2] = [R1, U2];
 const MANAGERS: [usize; 1] = [M];
+/// The observed tables of a world (printed into the trace header, so they may differ per trace).
+/// `std`: the tables of the random traces.  `wide`: the K1 worlds - the CONTRACTS themselves (both forwarders,
+/// a target, the fee tokens) also as allowance owners / balance holders / allow-list candidates, so that a
+/// forward / sweep / enable naming such an address as user, relayer, recipient or token is well-formed.
+#[derive(Clone, Default, Debug)]
+struct Tables { holders: Vec<usize>, owners: Vec<usize>, spenders: Vec<usize>, cands: Vec<usize> }
+fn std_tables() -> Tables { Tables { holders: HOLDERS.to_vec(), owners: OWNERS.to_vec(), spenders: SPENDERS.to_vec(), cands: CANDS.to_vec() } }
+fn wide_tables() -> Tables {
+    let mut t = std_tables();
+    t.holders.extend([T1, T2, T3]);
+    t.owners.extend([FP, FL, TA, T1]);
+    t.cands.extend([FP, FL, TA, M]);
+    t
+}
 /// addresses that may sign (accounts only: mock_auths re-registers the signer's address)
 const SIGNERS: [usize; 7] = [U1, U2, R1, R2, M, X, ADM];
 const START: u32 = 1000;
@@ -117,10 +131,12 @@ const HOST_B: (u32, u32, u32) = (16, 4096, 6_312_000);
 const LONG_GAPS: [u32; 6] = [20, 100, 17_281, 20_000, 600_000, 4_000_000];
 
 const F_HIT: u32 = 1; const F_BOOM: u32 = 2; const F_AUTH: u32 = 3; const F_NOPE: u32 = 4;
+/// the EMPTY symbol as function name (no contract exports it)
+const F_EMPTY: u32 = 9;
 const F_PULL: u32 = 5; const F_APPROVE_FOR: u32 = 6; const F_REENTER: u32 = 7; const F_TRANSFER_FROM: u32 = 15; const F_TRANSFER: u32 = 16;
 const F_FORWARD: u32 = 10; const F_APPROVE: u32 = 11; const F_ENABLE: u32 = 12; const F_DISABLE: u32 = 13; const F_SWEEP: u32 = 14;
 fn fname(f: u32) -> &'static str {
-    match f { 1 => "hit", 2 => "boom", 3 => "auth_hit", 4 => "nope", 5 => "pull", 6 => "approve_for", 7 => "reenter", 15 => "transfer_from", 16 => "transfer", 10 => "forward", 11 => "approve",
+    match f { 1 => "hit", 2 => "boom", 3 => "auth_hit", 4 => "nope", 5 => "pull", 6 => "approve_for", 7 => "reenter", 9 => "", 15 => "transfer_from", 16 => "transfer", 10 => "forward", 11 => "approve",
               12 => "enable_fee_token", 13 => "disable_fee_token", 14 => "sweep_tokens", _ => "zzz" }
 }
 
@@ -168,7 +184,7 @@ fn call_coq(c: &Call) -> String {
 #[derive(Clone, Default)]
 struct TokObs { total: i128, bal: Vec<i128>, alw: Vec<Vec<(i128, u32)>> }
 #[derive(Clone, Default)]
-struct Obs { now: u32, toks: Vec<TokObs>, count: u32, en: Vec<Option<usize>>, past: Option<usize>, idx: Vec<Option<u32>>, allowed: Vec<bool>,
+struct Obs { tb: std::rc::Rc<Tables>, now: u32, toks: Vec<TokObs>, count: u32, en: Vec<Option<usize>>, past: Option<usize>, idx: Vec<Option<u32>>, allowed: Vec<bool>,
              flcount: u32, logs: Vec<Vec<(u32, Vec<At>)>>, exec: Vec<bool>, mgr: Vec<bool> }
 impl Obs {
     fn coq(&self) -> String {
@@ -188,11 +204,11 @@ impl Obs {
                 n(self.flcount as u64), list(&logs), list(&ex), list(&mg))
     }
     fn bal(&self, tok: usize, h: usize) -> i128 {
-        let ti = TOKENS.iter().position(|&t| t == tok); let hi = HOLDERS.iter().position(|&x| x == h);
+        let ti = TOKENS.iter().position(|&t| t == tok); let hi = self.tb.holders.iter().position(|&x| x == h);
         match (ti, hi) { (Some(t), Some(h)) => self.toks[t].bal[h], _ => 0 }
     }
     fn alw(&self, tok: usize, o: usize, s: usize) -> (i128, u32) {
-        let ti = TOKENS.iter().position(|&t| t == tok); let oi = OWNERS.iter().position(|&x| x == o); let si = SPENDERS.iter().position(|&x| x == s);
+        let ti = TOKENS.iter().position(|&t| t == tok); let oi = self.tb.owners.iter().position(|&x| x == o); let si = self.tb.spenders.iter().position(|&x| x == s);
         match (ti, oi, si) { (Some(t), Some(o), Some(s)) => self.toks[t].alw[o][s], _ => (0, 0) }
     }
     fn enumerated(&self) -> Vec<usize> { self.en.iter().filter_map(|x| *x).collect() }
@@ -205,17 +221,20 @@ fn get_any<V: soroban_sdk::TryFromVal<Env, Val>>(e: &Env, k: &FeeAbstractionStor
     e.storage().instance().get::<_, V>(k)
 }
 
-struct World { e: Env, addr: Vec<Address>, obs: Obs, items: Vec<String>, obs0: String, min_temp: u32, max_ttl: u32, dead: bool }
+struct World { e: Env, addr: Vec<Address>, obs: Obs, items: Vec<String>, obs0: String, min_temp: u32, max_ttl: u32, dead: bool, start: u32, tb: std::rc::Rc<Tables> }
 
 impl World {
     fn new() -> World { World::with_min_temp(1) }
     /// `min_temp` = the host's min_temp_entry_ttl (1 as C07 prescribes; 16 = second configuration)
-    fn with_min_temp(min_temp: u32) -> World {
+    fn with_min_temp(min_temp: u32) -> World { World::build(min_temp, START, std_tables()) }
+    /// the K1 world: contracts as parties are inside the observed tables
+    fn wide() -> World { World::build(1, START, wide_tables()) }
+    fn build(min_temp: u32, start: u32, tb: Tables) -> World {
         let (min_temp, min_pers, max_ttl) = if min_temp == 1 { HOST_A } else { HOST_B };
         let e = Env::default();
         e.cost_estimate().budget().reset_unlimited();
         e.cost_estimate().disable_resource_limits();
-        e.ledger().with_mut(|l| { l.sequence_number = START; l.min_temp_entry_ttl = min_temp; l.min_persistent_entry_ttl = min_pers; l.max_entry_ttl = max_ttl; });
+        e.ledger().with_mut(|l| { l.sequence_number = start; l.min_temp_entry_ttl = min_temp; l.min_persistent_entry_ttl = min_pers; l.max_entry_ttl = max_ttl; });
         let mut addr: Vec<Address> = (0..NADDR).map(|_| Address::generate(&e)).collect();
         let execs: SVec<Address> = SVec::from_array(&e, [addr[R1].clone(), addr[U2].clone()]);
         addr[FP] = e.register(pd::contract::FeeForwarder, (addr[ADM].clone(), addr[M].clone(), execs));
@@ -223,7 +242,7 @@ impl World {
         for t in TOKENS { addr[t] = e.register(tok::FeeToken, ()); }
         for t in TARGETS { addr[t] = e.register(target::Target, ()); }
         e.set_auths(&[]);
-        let mut w = World { e, addr, obs: Obs::default(), items: vec![], obs0: String::new(), min_temp, max_ttl, dead: false };
+        let mut w = World { e, addr, obs: Obs::default(), items: vec![], obs0: String::new(), min_temp, max_ttl, dead: false, start, tb: std::rc::Rc::new(tb) };
         w.obs = w.observe();
         w.obs0 = w.obs.coq();
         w
@@ -248,11 +267,12 @@ impl World {
     }
     fn observe_inner(&self) -> Obs {
         let e = &self.e;
-        let mut o = Obs { now: e.ledger().sequence(), ..Default::default() };
+        let mut o = Obs { tb: self.tb.clone(), now: e.ledger().sequence(), ..Default::default() };
+        let tb = &*self.tb;
         for t in TOKENS {
             let to = e.as_contract(&self.addr[t], || {
-                let bal: Vec<i128> = HOLDERS.iter().map(|&h| Base::balance(e, &self.addr[h])).collect();
-                let alw: Vec<Vec<(i128, u32)>> = OWNERS.iter().map(|&ow| SPENDERS.iter().map(|&s| {
+                let bal: Vec<i128> = tb.holders.iter().map(|&h| Base::balance(e, &self.addr[h])).collect();
+                let alw: Vec<Vec<(i128, u32)>> = tb.owners.iter().map(|&ow| tb.spenders.iter().map(|&s| {
                     let d = Base::allowance_data(e, &self.addr[ow], &self.addr[s]);
                     // cross-check the plain getter against allowance_data
                     assert_eq!(Base::allowance(e, &self.addr[ow], &self.addr[s]), d.amount);
@@ -272,12 +292,14 @@ impl World {
             }
             let a: Option<Address> = get_any(e, &FeeAbstractionStorageKey::Token(o.count));
             o.past = a.map(|a| self.idx_of(&a).unwrap_or(99));
-            for c in CANDS {
+            // the sibling getter of Count (K3): it must say "enabled" exactly when Count > 0
+            assert_eq!(stellar_fee_abstraction::is_fee_token_allowlist_enabled(e), o.count > 0);
+            for &c in &tb.cands {
                 o.idx.push(get_any::<u32>(e, &FeeAbstractionStorageKey::TokenIndex(self.addr[c].clone())));
                 o.allowed.push(is_allowed_fee_token(e, &self.addr[c]));
             }
             // roles of the permissioned forwarder, through the real access-control getter
-            for h in HOLDERS {
+            for &h in &tb.holders {
                 o.exec.push(stellar_access::access_control::has_role(e, &self.addr[h], &Symbol::new(e, "executor")).is_some());
                 o.mgr.push(stellar_access::access_control::has_role(e, &self.addr[h], &Symbol::new(e, "manager")).is_some());
             }
@@ -373,8 +395,8 @@ impl World {
         r
     }
     fn finish(self, out: &mut Out, desc: &str) {
-        let cfg = format!("Cf {} {} {} {} {} {} {} {} {} {} {} {} {}", self.min_temp, self.max_ttl, START, n(FP as u64), n(FL as u64), nl(&EXECUTORS), nl(&MANAGERS), nl(&TOKENS), nl(&TARGETS),
-                          nl(&HOLDERS), nl(&OWNERS), nl(&SPENDERS), nl(&CANDS));
+        let cfg = format!("Cf {} {} {} {} {} {} {} {} {} {} {} {} {}", self.min_temp, self.max_ttl, self.start, n(FP as u64), n(FL as u64), nl(&EXECUTORS), nl(&MANAGERS), nl(&TOKENS), nl(&TARGETS),
+                          nl(&self.tb.holders), nl(&self.tb.owners), nl(&self.tb.spenders), nl(&self.tb.cands));
         let k = self.items.len();
         out.trace(desc, format!("({}, {}, {})", cfg, self.obs0, list(&self.items)), k);
     }
@@ -549,7 +571,7 @@ impl Gen {
             let fw = fwd_addr(f.pd);
             let (a0, _l0) = w.obs.alw(f.tok, f.user, fw);
             let bal = w.obs.bal(f.tok, f.user);
-            match rng.below(48) {
+            match rng.below(53) {
                 0 => { f.fee = 0; tags.push("fee:zero".into()); }
                 1 => { f.fee = -(1 + rng.below(5) as i128); tags.push("fee:negative".into()); }
                 2 => { f.fee = f.max.saturating_add(1); tags.push("fee:max+1".into()); }
@@ -609,6 +631,13 @@ impl Gen {
                 46 => { let other = other_of(rng, &TOKENS, f.tok);
                         f.target = other; f.f = F_TRANSFER_FROM; f.args = vec![At::A(fw), At::A(f.user), At::A(X), At::I(1)];
                         tags.push("target:other-token-transfer-from".into()); }
+                // K1: a contract (which cannot sign) as relayer / as fee token; K4: a target / token that does not exist
+                48 => { f.relayer = *rng.pick(&[FP, FL, TA, TB]); tags.push("relayer:is-contract".into()); }
+                49 => { f.tok = *rng.pick(&[FP, FL, TA]); tags.push("token:is-other-contract".into()); }
+                50 => { f.target = *rng.pick(&[X, R2, M]); tags.push("target:is-account".into()); }
+                // K2: a fee around a machine-word edge, maximum = fee / fee + 1 / fee - 1
+                51 | 52 => { let k = *rng.pick(&[31u32, 32, 63, 64, 96]); let m = (1i128 << k) + rng.range(-1, 2) as i128;
+                        f.fee = m; f.max = m + rng.range(-1, 2) as i128; tags.push("fee:word-edge".into()); }
                 // the fee exceeds the authorised maximum although the existing allowance would cover it
                 _ => { if a0 > 2 { f.max = a0 - 2; f.fee = a0 - rng.below(2) as i128; } else { f.fee = f.max.saturating_add(1); }
                        tags.push("fee:gt-max-within-allowance".into()); }
@@ -981,12 +1010,273 @@ fn corpus(out: &mut Out) {
     }
 }
 
+
+fn sweep_call(tok: usize, recipient: usize, operator: usize) -> Call {
+    let au = if SIGNERS.contains(&operator) { vec![Entry { who: operator, root: Func { c: FP, f: F_SWEEP, args: vec![V::A(tok), V::A(recipient), V::A(operator)] }, subs: vec![] }] } else { vec![] };
+    Call::Sweep { tok, recipient, operator, au }
+}
+fn settok_call(allowed: bool, tok: usize, operator: usize) -> Call {
+    let au = if SIGNERS.contains(&operator) { vec![Entry { who: operator, root: Func { c: FP, f: if allowed { F_ENABLE } else { F_DISABLE }, args: vec![V::A(tok), V::A(operator)] }, subs: vec![] }] } else { vec![] };
+    Call::SetTok { allowed, tok, operator, au }
+}
+fn nosub(f: &Fwd) -> Vec<Entry> { let mut au = f.good_auths(); for en in au.iter_mut() { en.subs.clear(); } au }
+
+/// directed scenarios of the situation classes K1-K6 (records/prompts/followup-classes.txt): executed on every run,
+/// independent of VERIF_SEED; one label per situation
+fn corpus_classes(out: &mut Out) {
+    let t = |s: &str| vec![s.to_string()];
+    // ---- K1 / K4 / K5: SPECIAL ADDRESSES AS PARTIES of a forward.  A contract cannot sign (it has no __check_auth and
+    //      mock_auths on it would replace it): every forward naming one as user or relayer carries no entry for it and
+    //      must be refused; a fee token / target that is an account, a forwarder or a contract of another type likewise.
+    for pd in [true, false] {
+        let mut w = World::wide();
+        let fw = fwd_addr(pd); let ofw = fwd_addr(!pd);
+        w.run(out, &Call::Mint { tok: T1, to: U1, amt: 1000 }, &[]);
+        w.run(out, &Call::Mint { tok: T1, to: fw, amt: 40 }, &[]);
+        w.run(out, &Call::Mint { tok: T1, to: ofw, amt: 40 }, &[]);
+        w.run(out, &Call::Mint { tok: T1, to: TA, amt: 40 }, &[]);
+        w.run(out, &Call::Mint { tok: T1, to: T1, amt: 40 }, &[]);
+        let f = Fwd { pd, tok: T1, fee: 10, max: 20, exp: START + 30, target: TA, f: F_HIT, args: vec![At::I(1)], user: U1, relayer: R1 };
+        for (r, tag) in [(fw, "k1:relayer-is-forwarder"), (ofw, "k1:relayer-is-other-forwarder"), (T1, "k1:relayer-is-token"), (TA, "k1:relayer-is-target")] {
+            let g = Fwd { relayer: r, ..f.clone() }; w.run(out, &g.call(g.good_auths()), &t(tag));
+        }
+        for (u, tag) in [(ofw, "k1:user-is-other-forwarder"), (T1, "k1:user-is-token"), (TA, "k1:user-is-target")] {
+            let g = Fwd { user: u, ..f.clone() }; w.run(out, &g.call(g.good_auths()), &t(tag));
+        }
+        // user = relayer = a contract: nobody signs anything
+        let g = Fwd { user: ofw, relayer: ofw, ..f.clone() }; w.run(out, &g.call(g.good_auths()), &t("k1:user-and-relayer-is-other-forwarder"));
+        let g = Fwd { user: fw, relayer: fw, ..f.clone() }; w.run(out, &g.call(g.good_auths()), &t("k1:user-and-relayer-is-forwarder"));
+        for (tk, tag) in [(X, "k4:fee-token-is-account"), (fw, "k1:fee-token-is-forwarder"), (ofw, "k1:fee-token-is-other-forwarder"), (TA, "k4:fee-token-is-target-contract")] {
+            let g = Fwd { tok: tk, ..f.clone() }; w.run(out, &g.call(g.good_auths()), &t(tag));
+        }
+        for (tg, tag) in [(X, "k4:target-is-account"), (ofw, "k1:target-is-other-forwarder"), (U1, "k4:target-is-user")] {
+            let g = Fwd { target: tg, ..f.clone() }; w.run(out, &g.call(g.good_auths()), &t(tag));
+        }
+        // the target demands the authorisation of a contract: itself, the other target, the fee token
+        for (who, tag) in [(TA, "k1:auth-hit-target-itself"), (TB, "k1:auth-hit-other-target"), (T1, "k1:auth-hit-token")] {
+            let g = Fwd { f: F_AUTH, args: vec![At::A(who), At::I(5)], ..f.clone() }; w.run(out, &g.call(g.good_auths()), &t(tag));
+        }
+        w.run(out, &f.call(f.good_auths()), &t("k1:control-good"));
+        // the signed target call is a token function whose parties alias / are contracts (K5): from = to = the user,
+        // to = the forwarder, to = the token contract itself, the forwarder's own funds to itself
+        let tf = Fwd { target: T1, f: F_TRANSFER_FROM, ..f.clone() };
+        for (to, tag) in [(U1, "k5:token-target-from-eq-to"), (fw, "k5:token-target-to-forwarder"), (T1, "k1:token-target-to-token-itself"), (ofw, "k1:token-target-to-other-forwarder")] {
+            let g = Fwd { args: vec![At::A(fw), At::A(U1), At::A(to), At::I(5)], ..tf.clone() }; w.run(out, &g.call(g.good_auths()), &t(tag));
+        }
+        let g = Fwd { target: T1, f: F_TRANSFER, args: vec![At::A(fw), At::A(fw), At::I(7)], ..f.clone() }; w.run(out, &g.call(g.good_auths()), &t("k5:token-target-forwarder-to-itself"));
+        // the forwarder is made to move funds of ANOTHER contract: not its own, no allowance -> refused
+        let g = Fwd { target: T1, f: F_TRANSFER, args: vec![At::A(ofw), At::A(X), At::I(7)], ..f.clone() }; w.run(out, &g.call(g.good_auths()), &t("k1:token-target-other-forwarder-funds"));
+        let g = Fwd { target: T1, f: F_TRANSFER, args: vec![At::A(T1), At::A(X), At::I(7)], ..f.clone() }; w.run(out, &g.call(g.good_auths()), &t("k1:token-target-token-own-funds"));
+        let g = Fwd { args: vec![At::A(fw), At::A(ofw), At::A(X), At::I(1)], ..tf.clone() }; w.run(out, &g.call(g.good_auths()), &t("k1:token-target-from-other-forwarder"));
+        w.finish(out, "classes-special-parties");
+    }
+    // ---- K1 / K5 / K3: the manager paths (allow-list and sweep) with special addresses, and every refusal reason
+    {
+        let mut w = World::wide();
+        for who in [R1, ADM, X] { w.run(out, &settok_call(true, T1, who), &t("k3:settok-not-manager")); }
+        w.run(out, &settok_call(true, T1, FP), &t("k1:settok-operator-is-forwarder"));
+        w.run(out, &Call::SetTok { allowed: true, tok: T1, operator: M, au: vec![] }, &t("k3:settok-no-auth"));
+        w.run(out, &Call::SetTok { allowed: true, tok: T1, operator: M, au: manager_auth(false, T1) }, &t("k3:settok-auth-for-disable"));
+        w.run(out, &Call::SetTok { allowed: true, tok: T1, operator: M, au: manager_auth(true, T2) }, &t("k3:settok-auth-other-token"));
+        // the manager's own entry, but the operator argument names somebody else (and vice versa)
+        w.run(out, &Call::SetTok { allowed: true, tok: T1, operator: R1, au: manager_auth(true, T1) }, &t("k3:settok-operator-arg-other"));
+        w.run(out, &Call::SetTok { allowed: true, tok: T1, operator: M, au: vec![Entry { who: R1, root: Func { c: FP, f: F_ENABLE, args: vec![V::A(T1), V::A(M)] }, subs: vec![] }] }, &t("k3:settok-signed-by-other"));
+        // the forwarder's own address, the other forwarder, a target, the operator itself as listed "token"
+        w.run(out, &settok_call(true, FP, M), &t("k1:enable-own-address"));
+        let f = Fwd { pd: true, tok: T1, fee: 3, max: 4, exp: START + 50, target: TA, f: F_HIT, args: vec![At::I(0)], user: U1, relayer: R1 };
+        w.run(out, &Call::Mint { tok: T1, to: U1, amt: 500 }, &[]);
+        w.run(out, &f.call(f.good_auths()), &t("k1:list-holds-own-address-only"));
+        let g = Fwd { tok: FP, ..f.clone() }; w.run(out, &g.call(g.good_auths()), &t("k1:listed-own-address-as-fee-token"));
+        w.run(out, &settok_call(true, FL, M), &t("k1:enable-other-forwarder"));
+        w.run(out, &settok_call(true, TA, M), &t("k1:enable-target"));
+        w.run(out, &settok_call(true, M, M), &t("k5:enable-operator-itself"));
+        w.run(out, &settok_call(true, X, M), &[]);
+        let g = Fwd { tok: X, ..f.clone() }; w.run(out, &g.call(g.good_auths()), &t("k4:listed-account-as-fee-token"));
+        let g = Fwd { tok: TA, ..f.clone() }; w.run(out, &g.call(g.good_auths()), &t("k4:listed-target-as-fee-token"));
+        w.run(out, &settok_call(false, FP, M), &t("k1:disable-own-address"));
+        w.run(out, &settok_call(false, FP, M), &t("k6:disable-own-address-again"));
+        w.run(out, &settok_call(true, T1, M), &[]);
+        w.run(out, &f.call(f.good_auths()), &t("k1:list-with-contracts-and-token"));
+        for tk in [M, TA, X, FL] { w.run(out, &settok_call(false, tk, M), &[]); }
+        // sweep: 3 collected so far
+        for who in [R1, ADM, X] { w.run(out, &sweep_call(T1, X, who), &t("k3:sweep-not-manager")); }
+        w.run(out, &sweep_call(T1, X, FP), &t("k1:sweep-operator-is-forwarder"));
+        w.run(out, &Call::Sweep { tok: T1, recipient: X, operator: M, au: vec![] }, &t("k3:sweep-no-auth"));
+        w.run(out, &Call::Sweep { tok: T1, recipient: X, operator: M, au: match sweep_call(T1, R2, M) { Call::Sweep { au, .. } => au, _ => vec![] } }, &t("k3:sweep-auth-other-recipient"));
+        w.run(out, &sweep_call(X, X, M), &t("k4:sweep-token-is-account"));
+        w.run(out, &sweep_call(FP, X, M), &t("k1:sweep-token-is-forwarder"));
+        w.run(out, &sweep_call(TA, X, M), &t("k4:sweep-token-is-target-contract"));
+        w.run(out, &sweep_call(T2, X, M), &t("k2:sweep-nothing"));
+        w.run(out, &sweep_call(T1, FP, M), &t("k1:sweep-to-itself"));
+        w.run(out, &sweep_call(T1, T1, M), &t("k1:sweep-to-token-contract"));
+        w.run(out, &f.call(f.good_auths()), &[]);
+        w.run(out, &sweep_call(T1, M, M), &t("k5:sweep-to-operator"));
+        w.run(out, &f.call(f.good_auths()), &[]);
+        w.run(out, &sweep_call(T1, FL, M), &t("k1:sweep-to-other-forwarder"));
+        w.run(out, &Call::Mint { tok: T2, to: FP, amt: 1 }, &[]);
+        w.run(out, &sweep_call(T2, U1, M), &t("k2:sweep-exactly-one"));
+        w.run(out, &sweep_call(T2, U1, M), &t("k2:sweep-nothing"));
+        w.finish(out, "classes-manager-paths");
+    }
+    // ---- K2: UNUSUAL BUT LEGAL VALUES
+    for pd in [true, false] {
+        let fw = fwd_addr(pd);
+        // (a) magnitudes around every machine-word edge and around powers of ten: the fee is debited / credited exactly
+        let mut w = World::new();
+        let big: i128 = i128::MAX / 2;
+        w.run(out, &Call::Mint { tok: T1, to: U1, amt: big }, &[]);
+        let f = Fwd { pd, tok: T1, fee: 1, max: 1, exp: START + 40, target: TA, f: F_HIT, args: vec![At::I(1)], user: U1, relayer: R1 };
+        let p2 = |k: u32| 1i128 << k; let p10 = |k: u32| 10i128.pow(k);
+        let magic: Vec<i128> = vec![p2(8), p2(16) - 1, p2(31) - 1, p2(31), p2(32) - 1, p2(32), p2(32) + 1, p2(53) + 1, p2(63) - 1, p2(63), p2(63) + 1, p2(64) - 1, p2(64), p2(64) + 1,
+                                    p10(6), p10(7) - 1, p10(9) - 1, p10(9), p10(9) + 1, p10(18), p10(18) + 1, p10(19) - 1, p2(96) + 1, p2(100) - 1];
+        for (i, &m) in magic.iter().enumerate() {
+            let max = match i % 3 { 0 => m, 1 => m + 1, _ => i128::MAX };
+            let g = Fwd { fee: m, max, ..f.clone() }; w.run(out, &g.call(g.good_auths()), &t("k2:fee-magnitude"));
+        }
+        // (b) a fee ABOVE the maximum whose low machine words are within it (a comparison in a narrower type would accept
+        //     it); the standing allowance and the balance cover the fee, so only the bound check stands in the way
+        w.run(out, &Call::Approve { tok: T1, owner: U1, spender: fw, amt: i128::MAX, exp: START + 500, au: owner_auth(T1, U1, fw, i128::MAX, START + 500) }, &[]);
+        for (fee, max) in [(p2(32) + 1, 2i128), (p2(64) + 1, 2), (p2(64) + 1, p2(64)), (p2(63) + 5, p2(63) - 1), (p2(64) + 2, p2(32) + 7), (p2(96) + 1, p2(64) + 9), (p10(9) + 1, p10(9))] {
+            let g = Fwd { fee, max, ..f.clone() };
+            w.run(out, &g.call(nosub(&g)), &t("k2:fee-gt-max-low-words-within-nosub"));
+            w.run(out, &g.call(g.good_auths()), &t("k2:fee-gt-max-low-words-within"));
+        }
+        // ... and a fee within the maximum whose low words exceed the maximum's
+        for (fee, max) in [(p2(32) - 1, p2(32)), (p2(64) - 1, p2(64) + 1), (7, p2(64))] {
+            let g = Fwd { fee, max, ..f.clone() }; w.run(out, &g.call(g.good_auths()), &t("k2:fee-le-max-low-words-above"));
+        }
+        let g = Fwd { fee: 1, max: i128::MAX, ..f.clone() }; w.run(out, &g.call(g.good_auths()), &t("k2:max-is-i128-max"));
+        w.finish(out, "classes-values-magnitudes");
+
+        // (c) thresholds relative to the state: fee = balance, fee = balance + 1, balance 0; a pre-existing allowance
+        //     BETWEEN the fee and the maximum; fee = max = 1
+        let mut w = World::new();
+        w.run(out, &Call::Mint { tok: T1, to: U1, amt: 5000 }, &[]);
+        w.run(out, &Call::Mint { tok: T1, to: U2, amt: 77 }, &[]);
+        let f = Fwd { pd, tok: T1, fee: 60, max: 100, exp: START + 40, target: TA, f: F_HIT, args: vec![At::I(1)], user: U1, relayer: R1 };
+        w.run(out, &Call::Approve { tok: T1, owner: U1, spender: fw, amt: 80, exp: START + 500, au: owner_auth(T1, U1, fw, 80, START + 500) }, &[]);
+        w.run(out, &f.call(nosub(&f)), &t("k2:prev-between-fee-and-max-nosub"));
+        w.run(out, &f.call(f.good_auths()), &t("k2:prev-between-fee-and-max"));
+        // ... and a pre-existing allowance exactly AT and one off each threshold the lazy strategy could compare it with
+        for (pre, tag) in [(59i128, "k2:prev-is-fee-minus-one"), (60, "k2:prev-is-fee"), (61, "k2:prev-is-fee-plus-one"), (99, "k2:prev-is-max-minus-one"), (101, "k2:prev-is-max-plus-one")] {
+            w.run(out, &Call::Approve { tok: T1, owner: U1, spender: fw, amt: pre, exp: START + 500, au: owner_auth(T1, U1, fw, pre, START + 500) }, &[]);
+            w.run(out, &f.call(nosub(&f)), &t(&format!("{}-nosub", tag)));
+            w.run(out, &f.call(f.good_auths()), &t(tag));
+        }
+        let g = Fwd { user: U2, fee: 78, max: 78, ..f.clone() }; w.run(out, &g.call(g.good_auths()), &t("k2:fee-is-balance-plus-one"));
+        let g = Fwd { user: U2, fee: 77, max: 77, ..f.clone() }; w.run(out, &g.call(g.good_auths()), &t("k2:fee-is-balance"));
+        let g = Fwd { user: U2, fee: 1, max: 1, ..f.clone() }; w.run(out, &g.call(g.good_auths()), &t("k2:balance-zero"));
+        let g = Fwd { fee: 1, max: 1, ..f.clone() }; w.run(out, &g.call(g.good_auths()), &t("k2:fee-one-max-one"));
+        // (d) expiration ledgers 1 and u32::MAX / one past the longest live entry, with and without a sufficient allowance
+        let g = Fwd { exp: 1, ..f.clone() }; w.run(out, &g.call(g.good_auths()), &t("k2:exp-one"));
+        w.run(out, &Call::Approve { tok: T1, owner: U1, spender: fw, amt: 500, exp: START + 900, au: owner_auth(T1, U1, fw, 500, START + 900) }, &[]);
+        for (exp, tag) in [(1u32, "k2:sufficient-exp-one"), (u32::MAX, "k2:sufficient-exp-u32max"), (START + w.max_ttl, "k2:sufficient-exp-past-max-live"), (START + w.max_ttl - 1, "k2:sufficient-exp-max-live")] {
+            let g = Fwd { exp, fee: 5, max: 50, ..f.clone() };
+            w.run(out, &g.call(nosub(&g)), &t(&format!("{}-nosub", tag)));
+            w.run(out, &g.call(g.good_auths()), &t(tag));
+        }
+        // (e) empty / repeated pieces of the forwarded call: the empty symbol, no arguments, the same argument twice,
+        //     the same address in every position of a re-entering call
+        let g = Fwd { f: F_EMPTY, ..f.clone() }; w.run(out, &g.call(g.good_auths()), &t("k2:fn-empty-symbol"));
+        let g = Fwd { args: vec![], ..f.clone() }; w.run(out, &g.call(g.good_auths()), &t("k2:args-empty"));
+        let g = Fwd { args: vec![At::I(1), At::I(1)], ..f.clone() }; w.run(out, &g.call(g.good_auths()), &t("k2:args-repeated"));
+        let g = Fwd { fee: 5, max: 50, f: F_PULL, args: vec![At::A(T1), At::A(fw), At::A(U1), At::A(U1), At::I(0), At::I(1)], ..f.clone() }; w.run(out, &g.call(g.good_auths()), &t("k5:pull-from-eq-to-zero"));
+        let g = Fwd { fee: 5, max: 50, f: F_PULL, args: vec![At::A(T1), At::A(U1), At::A(U1), At::A(U1), At::I(3), At::I(1)], ..f.clone() }; w.run(out, &g.call(g.good_auths()), &t("k5:pull-spender-eq-from-eq-to"));
+        w.finish(out, "classes-values-thresholds");
+
+        // (f) the very first ledgers: sequence 0 and 1 (expiration 0 is "now" at ledger 0 and "past" afterwards)
+        let mut w = World::build(1, 0, std_tables());
+        w.run(out, &Call::Mint { tok: T1, to: U1, amt: 1000 }, &[]);
+        let f = Fwd { pd, tok: T1, fee: 5, max: 9, exp: 0, target: TA, f: F_HIT, args: vec![At::I(1)], user: U1, relayer: R1 };
+        w.run(out, &f.call(f.good_auths()), &t("k2:ledger0-exp0"));
+        w.run(out, &f.call(f.good_auths()), &t("k2:ledger0-exp0-again"));
+        w.run(out, &Call::Advance(1), &[]);
+        w.run(out, &f.call(f.good_auths()), &t("k2:ledger1-exp0"));
+        let g = Fwd { exp: 1, ..f.clone() }; w.run(out, &g.call(g.good_auths()), &t("k2:ledger1-exp1"));
+        w.run(out, &Call::Advance(1), &[]);
+        w.run(out, &g.call(g.good_auths()), &t("k2:ledger2-exp1"));
+        w.finish(out, "classes-values-ledger0");
+    }
+    // ---- K5: the fee token IS the target and is not in a non-empty list: the list is still consulted
+    {
+        let mut w = World::new();
+        w.run(out, &Call::Mint { tok: T1, to: U1, amt: 500 }, &[]);
+        w.run(out, &Call::Mint { tok: T2, to: U1, amt: 500 }, &[]);
+        w.run(out, &settok_call(true, T1, M), &[]);
+        let f = Fwd { pd: true, tok: T2, fee: 3, max: 9, exp: START + 50, target: T2, f: F_TRANSFER_FROM, args: vec![At::A(FP), At::A(U1), At::A(X), At::I(2)], user: U1, relayer: R1 };
+        w.run(out, &f.call(f.good_auths()), &t("k5:token-is-target-not-in-list"));
+        let g = Fwd { target: T1, args: vec![At::A(FP), At::A(U1), At::A(X), At::I(0)], ..f.clone() }; w.run(out, &g.call(g.good_auths()), &t("k5:target-in-list-token-not"));
+        let g = Fwd { tok: T1, target: T1, ..f.clone() }; w.run(out, &g.call(g.good_auths()), &t("k5:token-is-target-in-list"));
+        let g = Fwd { pd: false, ..f.clone() }; let mut g = g; g.args = vec![At::A(FL), At::A(U1), At::A(X), At::I(2)];
+        w.run(out, &g.call(g.good_auths()), &t("k5:token-is-target-no-list"));
+        w.finish(out, "classes-token-is-target-list");
+    }
+    // ---- K6: MULTI-STEP allow-list histories.  Four listed entries, removed in EVERY order (first / middle /
+    //      second-to-last / last at every length); TokenIndex(t) is read back numerically after every call.
+    {
+        let four = [T1, T2, T3, X];
+        let mut perm: Vec<Vec<usize>> = vec![];
+        fn rec(cur: &mut Vec<usize>, left: &mut Vec<usize>, acc: &mut Vec<Vec<usize>>) {
+            if left.is_empty() { acc.push(cur.clone()); return; }
+            for i in 0..left.len() { let x = left.remove(i); cur.push(x); rec(cur, left, acc); cur.pop(); left.insert(i, x); }
+        }
+        rec(&mut vec![], &mut four.to_vec(), &mut perm);
+        for (pi, order) in perm.iter().enumerate() {
+            let mut w = World::new();
+            for tk in four { w.run(out, &settok_call(true, tk, M), &[]); }
+            for (j, &tk) in order.iter().enumerate() {
+                let en = w.obs.enumerated();
+                let pos = en.iter().position(|&x| x == tk).map(|p| p as i64).unwrap_or(-1);
+                w.run(out, &settok_call(false, tk, M), &t(&format!("k6:swap-pop-{}-of-{}", pos, en.len())));
+                // every sixth order: a removed token is refused, a remaining one accepted, the first removed one re-added
+                if pi % 6 == 0 && j == 1 {
+                    w.run(out, &Call::Mint { tok: T1, to: U1, amt: 100 }, &[]);
+                    w.run(out, &Call::Mint { tok: T2, to: U1, amt: 100 }, &[]);
+                    for tk2 in [T1, T2] {
+                        let f = Fwd { pd: true, tok: tk2, fee: 1, max: 2, exp: START + 9, target: TA, f: F_HIT, args: vec![At::I(2)], user: U1, relayer: R1 };
+                        w.run(out, &f.call(f.good_auths()), &t("k6:forward-after-two-removals"));
+                    }
+                    w.run(out, &settok_call(true, order[0], M), &t("k6:re-add-first-removed"));
+                    w.run(out, &settok_call(false, order[0], M), &t("k6:remove-re-added"));
+                }
+            }
+            w.finish(out, "classes-four-listed");
+        }
+        // eight candidates (tokens, an account, both forwarders, a target, the manager as listed addresses): three fixed walks of
+        // 36 enable / disable steps each, removals aimed at every position
+        for walk in 0..3u64 {
+            let mut rng = Rng::new(190_700 + walk);
+            let mut w = World::wide();
+            w.run(out, &Call::Mint { tok: T1, to: U1, amt: 100 }, &[]);
+            let cands = w.tb.cands.clone();
+            for step in 0..36 {
+                let en = w.obs.enumerated();
+                let remove = !en.is_empty() && (en.len() >= 6 || rng.chance(en.len() as u64, 8));
+                if remove {
+                    let pos = match rng.below(4) { 0 => 0, 1 => en.len() - 1, 2 => en.len().saturating_sub(2), _ => rng.below(en.len() as u64) as usize };
+                    w.run(out, &settok_call(false, en[pos], M), &t(&format!("k6:walk-swap-pop-{}-of-{}", pos, en.len())));
+                } else {
+                    let free: Vec<usize> = cands.iter().cloned().filter(|c| !en.contains(c)).collect();
+                    let tk = if rng.chance(1, 8) && !en.is_empty() { *rng.pick(&en) } else { *rng.pick(&free) };
+                    w.run(out, &settok_call(true, tk, M), &t("k6:walk-enable"));
+                }
+                if step % 6 == 5 {
+                    let f = Fwd { pd: true, tok: T1, fee: 1, max: 2, exp: START + 9, target: TA, f: F_HIT, args: vec![At::I(3)], user: U1, relayer: R1 };
+                    w.run(out, &f.call(f.good_auths()), &t("k6:walk-forward"));
+                }
+            }
+            w.finish(out, "classes-list-walk");
+        }
+    }
+}
+
 fn main() {
     let mut out = Out::new("From SC Require Import Lib.Prelude Lib.Int Lib.Host Model.FeeForwarder Run.C19.\nOpen Scope Z_scope.", "check_all");
     out.per_shard(700);
     let seed = out.cfg.seed;
     let thorough = out.cfg.thorough;
     corpus(&mut out);
+    corpus_classes(&mut out);
     // exhaustive small scope: every enable / disable history of the given depth over three tokens
     {
         let depth = if thorough { 5u32 } else { 3u32 };
